@@ -454,6 +454,67 @@ func (cr *completeRunner) checkFilling(vals []string) {
 			}
 		}
 	}
+	// One byte sent percent-encoded — a delimiter, an inner slash, a letter whose code has a hex
+	// letter, the last byte, a trailing slash that is not there otherwise — with lower-case, upper-
+	// case and mixed-case hex digits. With UnescapePath the request is the request with that byte
+	// sent raw: same decision, same values. Either way RoutePatternMatch answers as the dispatch.
+	{
+		type variant struct {
+			enc, raw, class string
+			lower           bool
+		}
+		var vs []variant
+		add := func(i int, class string, lower bool) {
+			f := "%%%02X"
+			if lower {
+				f = "%%%02x"
+			}
+			vs = append(vs, variant{path[:i] + fmt.Sprintf(f, path[i]) + path[i+1:], path, class, lower})
+		}
+		if i := strings.IndexAny(path[1:], "-."); i >= 0 {
+			add(i+1, "delimiter", true)
+		}
+		if i := strings.IndexByte(path[1:], '/'); i >= 0 {
+			add(i+1, "slash", len(path)%2 == 0)
+		}
+		if i := strings.IndexAny(path, "jklmnoz"); i >= 0 {
+			add(i, "letter", true)
+		}
+		if c := path[len(path)-1]; len(path) > 1 && c != '+' && c != ' ' {
+			add(len(path)-1, "last-byte", len(path)%2 == 1)
+		}
+		if !strings.HasSuffix(path, "/") {
+			low := cr.c.R.Bool()
+			vs = append(vs, variant{path + map[bool]string{true: "%2f", false: "%2F"}[low], path + "/", "appended-trailing-slash", low})
+		}
+		for _, v := range vs {
+			ranE, gotE, st := cr.dispatch(v.enc)
+			if st == -1 {
+				continue
+			}
+			e.Eval(1)
+			if cr.cfg.Unescape {
+				ranR, gotR, st2 := cr.dispatch(v.raw)
+				if st2 != -1 {
+					same := ranE == ranR
+					if same && ranE {
+						for _, k := range cr.keys {
+							if k != "" && gotE[k] != gotR[k] {
+								same = false
+							}
+						}
+					}
+					if !same {
+						hexcase := onoff(v.lower, "lower-case-hex", "upper-case-hex")
+						e.Violation(c, "complete|percent-encoded-byte-not-equivalent-to-raw-byte|"+v.class+"|"+hexcase,
+							fmt.Sprintf("UnescapePath on: %q on %q: matched=%v params=%v, on %q: matched=%v params=%v", cr.text, v.enc, ranE, gotE, v.raw, ranR, gotR),
+							detail(map[string]any{"variant": v.enc, "raw": v.raw}))
+					}
+				}
+			}
+			cr.checkRPM(v.enc, ranE, shape)
+		}
+	}
 	// percent-encoding of one value byte
 	for i, t := range cr.p.Toks {
 		if t.Kind == tLit || vals[i] == "" || (ambiguousTail && i == nt-2) {
